@@ -7,6 +7,10 @@
          | adt  (no MIR context: mir-varr.h / mir-htab.h used directly with the ledger allocator)
          | scanstr:jcall     jcall through a variadic prototype + jret (generated, never executed)
          | scanstr:manyargs  main calls an external variadic function with 70 arguments
+         | scanstr:irreducible  a loop with a second entry (jump into the middle of its body)
+         | movectx           context A scans a module (functions with a global variable tied to a hard register),
+                             MIR_change_module_ctx (A, m, B), MIR_finish (A); B outputs, writes, loads, links,
+                             generates the moved module; MIR_finish (B).  One execution: both contexts share the ledger
          | bigcode           modules of functions with hundreds of call sites are loaded, linked and generated
                              one after the other until rep code patches straddled a page boundary
      link=none|interp|gen|lazy|lazybb      interface passed to MIR_link
@@ -140,6 +144,19 @@ static const char *c_inputs[][2] = {
    "int main (void) { char buf[16]; int i; size_t z = sizeof (buf); for (i = 0; i < 16; i++) buf[i] = (char) i;\n"
    "  printf (\"%s %d\\n\", \"x\", apply (ops[1], 6, 7));\n"
    "  return !(apply (ops[0], 2, 3) == 5 && apply (ops[1], 6, 7) == 42 && vsum (3, 1, 2, 3) == 6 && buf[15] == 15 && z == 16); }\n"},
+  {"incomplete", /* identifiers first declared with an incomplete type and completed later */
+   "extern int tab[];\n"
+   "struct S;\n"
+   "extern struct S gs;\n"
+   "struct S *ps = &gs;\n"
+   "int t[];\n"
+   "static int sum (int n) { int s = 0; for (int i = 0; i < n; i++) s += tab[i]; return s; }\n"
+   "int tab[4] = {1, 2, 3, 4};\n"
+   "struct S { int x, y; };\n"
+   "struct S gs = {5, 6};\n"
+   "int t[3];\n"
+   "int f (int); int f (int a) { return a + 1; }\n"
+   "int main (void) { t[2] = 7; return !(sum (4) + (int) (sizeof (tab) / sizeof (tab[0])) == 14 && ps->y == 6 && t[2] == 7 && f (1) == 2); }\n"},
   {"empty", "int main (void) { return 0; }\n"},
 };
 
@@ -162,6 +179,51 @@ static const char *jcall_prog
     "  ret r\n"
     "  endfunc\n"
     "  endmodule\n";
+
+/* an irreducible loop: the loop L1..blt has a second entry at L2 */
+static const char *irreducible_prog
+  = "m: module\n"
+    "export main\n"
+    "f:    func i64, i64:n\n"
+    "      local i64:i, i64:s\n"
+    "      mov i, 0\n"
+    "      mov s, 0\n"
+    "      bgt L2, n, 5\n"
+    "L1:\n"
+    "      add s, s, i\n"
+    "L2:\n"
+    "      add s, s, 1\n"
+    "      add i, i, 1\n"
+    "      blt L1, i, n\n"
+    "      ret s\n"
+    "      endfunc\n"
+    "pf:   proto i64, i64:n\n"
+    "main: func i64\n"
+    "      local i64:a, i64:b\n"
+    "      call pf, f, a, 3\n"
+    "      call pf, f, b, 8\n"
+    "      mul a, a, 100\n"
+    "      add a, a, b\n"
+    "      ret a\n"
+    "      endfunc\n"
+    "      endmodule\n";
+
+/* functions with a global variable tied to a hard register (moved between contexts by run_movectx) */
+static const char *movectx_prog
+  = "m1: module\n"
+    "export get, set\n"
+    "set: func i64:v\n"
+    "  global i64:acc:r12\n"
+    "  mov acc, v\n"
+    "  ret\n"
+    "endfunc\n"
+    "get: func i64, i64:k\n"
+    "  global i64:acc:r12\n"
+    "  local i64:t\n"
+    "  mul t, acc, k\n"
+    "  ret t\n"
+    "endfunc\n"
+    "endmodule\n";
 
 static char *manyargs_prog (void) { /* call p, sumv, r, 70, 1, 2, ..., 70 */
   static char buf[2000];
@@ -258,6 +320,9 @@ static int build (MIR_context_t ctx, struct hist *h, int *c2m_active) {
   } else if (strcmp (s, "scanstr:jcall") == 0) {
     API ("MIR_scan_string");
     MIR_scan_string (ctx, jcall_prog);
+  } else if (strcmp (s, "scanstr:irreducible") == 0) {
+    API ("MIR_scan_string");
+    MIR_scan_string (ctx, irreducible_prog);
   } else if (strcmp (s, "scanstr:manyargs") == 0) {
     API ("MIR_scan_string");
     MIR_scan_string (ctx, manyargs_prog ());
@@ -414,6 +479,66 @@ static const char *run_bigcode (struct hist *h, const char *name) {
   return NULL;
 }
 
+/* A module is built in context A, moved to context B, A is finished, B goes on using the module. */
+static const char *run_movectx (struct hist *h, const char *name) {
+  MIR_context_t a, b;
+  MIR_module_t m;
+  MIR_item_t it;
+  FILE *f;
+  int gen_used = strcmp (h->link, "interp") != 0 && strcmp (h->link, "none") != 0;
+
+  c17_start (name);
+  if (setjmp (err_jmp)) return err_msg;
+  API ("MIR_init2");
+  a = MIR_init2 (c17_alloc (), c17_code_alloc ());
+  MIR_set_error_func (a, on_error);
+  API ("MIR_init2");
+  b = MIR_init2 (c17_alloc (), c17_code_alloc ());
+  MIR_set_error_func (b, on_error);
+  API ("MIR_scan_string");
+  MIR_scan_string (a, movectx_prog);
+  m = DLIST_HEAD (MIR_module_t, *MIR_get_module_list (a));
+  API ("MIR_change_module_ctx");
+  MIR_change_module_ctx (a, m, b);
+  API ("MIR_finish");
+  MIR_finish (a); /* everything context A owned is released here */
+  API ("MIR_output");
+  MIR_output (b, devnull);
+  if ((f = fopen ("/dev/null", "wb")) == NULL) return "cannot open output";
+  API ("MIR_write");
+  MIR_write (b, f);
+  fclose (f);
+  if (strcmp (h->link, "none") != 0) {
+    API ("MIR_load_module");
+    MIR_load_module (b, m);
+    if (gen_used) {
+      API ("MIR_gen_init");
+      MIR_gen_init (b);
+      MIR_gen_set_optimize_level (b, (unsigned) h->opt);
+    }
+    API ("MIR_link");
+    MIR_link (b,
+              strcmp (h->link, "interp") == 0 ? MIR_set_interp_interface
+              : strcmp (h->link, "gen") == 0  ? MIR_set_gen_interface
+              : strcmp (h->link, "lazy") == 0 ? MIR_set_lazy_gen_interface
+                                              : MIR_set_lazy_bb_gen_interface,
+              resolver);
+    if (gen_used) {
+      API ("MIR_gen");
+      for (it = DLIST_HEAD (MIR_item_t, m->items); it != NULL; it = DLIST_NEXT (MIR_item_t, it))
+        if (it->item_type == MIR_func_item) MIR_gen (b, it);
+      API ("MIR_gen_finish");
+      MIR_gen_finish (b);
+    }
+    API ("MIR_output");
+    MIR_output (b, devnull);
+  }
+  API ("MIR_finish");
+  MIR_finish (b);
+  c17_finish ();
+  return NULL;
+}
+
 /* returns NULL when the history completed, else the reason it was abandoned */
 static const char *run_ctx (struct hist *h, const char *name, const char *write_to) {
   MIR_context_t ctx;
@@ -540,6 +665,8 @@ int main (int argc, char **argv) {
       unlink (path);
     } else if (strcmp (h.src, "adt") == 0) {
       why = run_adt (argv[i]);
+    } else if (strcmp (h.src, "movectx") == 0) {
+      why = run_movectx (&h, argv[i]);
     } else if (strcmp (h.src, "bigcode") == 0) {
       why = run_bigcode (&h, argv[i]);
     } else {
